@@ -114,10 +114,16 @@ def judge(run, rule, args, prev_ths, where, origin):
     return 'agree'
 
 
-def library_steps(run, thys, r, per_thy):
-    """(rule, args, prev_ths, where) for macro steps of recorded proofs, each replayed in its own context."""
+def library_steps(run, thys, r, per_thy, budget_s=None):
+    """(rule, args, prev_ths, where) for macro steps of recorded proofs, each replayed in its own context.
+    budget_s bounds the wall-clock time spent replaying (the theories are visited round-robin so that none is starved)."""
+    import time
+    t0 = time.time()
     out = []
     for thy in thys:
+        if budget_s is not None and time.time() - t0 > budget_s * (thys.index(thy) + 1) / len(thys):
+            run.stat('replay_budget_exhausted_before:' + thy)
+            continue
         try:
             data = json.load(open(os.path.join(REPO, 'library', thy + '.json'), encoding='utf-8'))
         except Exception:
@@ -125,6 +131,9 @@ def library_steps(run, thys, r, per_thy):
         items = [it for it in data['content'] if it.get('ty') == 'thm' and isinstance(it.get('proof'), list)]
         r.shuffle(items)
         for it in items[:per_thy]:
+            if budget_s is not None and time.time() - t0 > budget_s * (thys.index(thy) + 1) / len(thys):
+                run.stat('replay_budget_reached_in:' + thy)
+                break
             try:
                 context.set_context(thy, limit=('thm', it['name']), vars=it.get('vars', {}))
                 state = server.parse_proof(it['proof'])
@@ -160,14 +169,19 @@ def run_check(tier, seed):
     r = run.rng
     basic.load_theory('logic_base')
     thys = ['logic', 'set', 'function', 'nat'] if tier == 'quick' else ['logic_base', 'logic', 'set', 'function', 'nat', 'int', 'list', 'order', 'real', 'hoare', 'lattice']
-    steps = library_steps(run, thys, r, 12 if tier == 'quick' else 40)
+    steps = library_steps(run, thys, r, 12 if tier == 'quick' else 40, budget_s=None if tier == 'quick' else 900)
     cap = 500 if tier == 'quick' else 2500
     if len(steps) > cap:
         r.shuffle(steps)
         steps = steps[:cap]
     goals_pool = []
     cur_ctx = None
+    import time
+    t_judge = time.time()
     for rule, args, prev_ths, where, ctx_info in steps:
+        if tier != 'quick' and time.time() - t_judge > 1200:
+            run.stat('judging_budget_reached')
+            break
         if ctx_info != cur_ctx:
             try:
                 context.set_context(ctx_info[0], limit=('thm', ctx_info[1]), vars=ctx_info[2])
